@@ -114,6 +114,56 @@ CLAIMED["C04"] = dict(
               "caller-side at-call assertions; obligations discharged by z3/cvc5",
     design="§3 C04")
 
+STORAGE_NOTE = (COMMON_NOTE + "Sequential semantics: each method is verified as one atomic step over the segment's refCount / index / "
+                "mustBeDeleted fields (the real code runs them under segment.mu or as CAS loops; interleavings are not explored — "
+                "concurrency is outside this technique). Assumed contracts: segment.initialize, closeResourcesLocked, "
+                "fs.FileSystem.MustRMAll/MkdirPanicIfExist/CreateLockFile, segmentController.load/format/getOptions, json/path helpers. ")
+
+CLAIMED["C14"] = dict(
+    text="Proof (sequential semantics, all states) of the reference accounting of storage segments: incRef/acquire add exactly one "
+         "reference or fail without changing the count (re-opening a closed segment only through initialize), DecRef gives back exactly "
+         "one and releases resources only when the count drops to zero, delete/performDelete/closeIfIdle call closeResourcesLocked only with "
+         "refCount <= 0 and never touch another segment; removeSeg removes exactly the given segment from the controller list. For "
+         "selectSegments/segments: unbounded proof of memory safety, frame and 'every returned element is a list element / nil on error'; "
+         "the no-leak and all-pinned postconditions (on error every reference taken is given back, on success each returned segment holds "
+         "exactly one more reference and no other segment changes) are BOUNDED stand-ins for controller lists of at most 2 segments "
+         "(loops unrolled completely), reported under bounded_standins and not counted as proved.",
+    note=STORAGE_NOTE + "Not decided: readers' use of a segment between acquire and DecRef in the engines (measure/stream/trace query "
+         "paths are proto-typed), the rotation goroutine, deletion racing a concurrent query (needs interleavings), the tsTable/shard "
+         "references inside a segment.",
+    technique="contract-based deductive verification: VCs from the typed Go AST (govc) over a heap model with per-field frames and "
+              "quantified list invariants, call-by-contract; obligations discharged by z3/cvc5; two postconditions by complete "
+              "unrolling to 2 segments (labelled bounded)",
+    design="§3 C14")
+
+CLAIMED["C07"] = dict(
+    text="Proof (loops by inductive invariants, no bound) that retention only removes expired data and selection never returns it: "
+         "segmentController.remove(deadline) deletes exactly segments whose End is not after the deadline and keeps every other list "
+         "element (only-expired invariant over the real loop); removeOldest removes only the first (oldest) segment and keeps the rest; "
+         "database.SelectSegments drops from selectSegments' result every segment whose whole range lies before the retention "
+         "deadline (ghost variable holding getRetentionDeadline's value), so with retention enabled no such segment is returned; timestamp.TimeRange.Contains/Overlapping/Include lemmas "
+         "give the interval algebra these rely on.",
+    note=STORAGE_NOTE + "Assumed: the retention deadline computation from the TTL rule (calendar arithmetic on time.Time is opaque: "
+         "IntervalRule.Standard/NextTime are uninterpreted), time.Now. Not decided: the retention task scheduling (cron goroutine), "
+         "TTL changes racing a query, per-part/per-block min/max timestamp pruning inside the engines (proto-typed packages).",
+    technique="contract-based deductive verification: VCs from the typed Go AST (govc), quantified loop invariants over the segment "
+              "list, time.Time as integer nanoseconds; obligations discharged by z3/cvc5",
+    design="§3 C07")
+
+CLAIMED["C06"] = dict(
+    text="Proof (loop by inductive invariant, no bound) that segmentController.create(ts) returns a segment whose time range "
+         "contains ts — an existing one or a newly created one — whenever the controller's segments are sorted, half-open and "
+         "non-overlapping (postconditions found / contains-low / contains-high, taken from the property: a point is filed under the segment that "
+         "contains its timestamp), with the calendar grid abstracted to its only used facts (Standard(t) <= t < NextTime(Standard(t))); "
+         "TimeRange.Contains is proved to be the half-open interval test [Start, End). The check found and fixed a genuine defect here "
+         "(known_findings.json, 24885fe).",
+    note=STORAGE_NOTE + "Assumed: IntervalRule.Standard/NextTime satisfy Standard(t) <= t < NextTime(Standard(t)) (calendar "
+         "arithmetic is opaque), segmentController.load returns a segment with the requested range. Not decided: the write path above "
+         "it (CreateSegmentIfNotExist's lookup, tsTable/shard selection, series-index placement — proto-typed engines), concurrent creates.",
+    technique="contract-based deductive verification: VCs from the typed Go AST (govc), quantified loop invariant over the sorted "
+              "segment list, uninterpreted calendar function with its stated axioms; obligations discharged by z3/cvc5",
+    design="§3 C06")
+
 NOT_APPLICABLE = {
     "C15": "equivalence of two whole query pipelines over generated proto types: translation validation, no function contract states it (DESIGN.md §5)",
     "C17": "whole-cluster equivalence and gRPC/proto-typed transfer code with no type information in this tree (DESIGN.md §5)",
